@@ -147,10 +147,11 @@ func c16(c *core.Ctx) {
 			c.Missing("decorated unary/stream handler literals in " + dk)
 		} else {
 			uk := core.FuncName(unaryWrap)
-			// the original handler call
+			// the original handler call(s): one on every path; the early-return form has one per edge of the transport test
+			origs := core.CallsIn(unaryWrap, func(call *ssa.Call, ci core.CallInfo) bool { return ci.Dyn && len(call.Call.Args) == 4 })
 			var orig *ssa.Call
-			for _, call := range core.CallsIn(unaryWrap, func(call *ssa.Call, ci core.CallInfo) bool { return ci.Dyn && len(call.Call.Args) == 4 }) {
-				orig = call
+			if len(origs) > 0 {
+				orig = origs[0]
 			}
 			if orig == nil {
 				c.Fail(uk+":calls-original", unaryWrap.Pos(), "decorated unary handler does not call the original handler")
@@ -160,37 +161,46 @@ func c16(c *core.Ctx) {
 					return isC && core.InfoOf(&call.Call).Dyn
 				}, nil)
 				c.Check(ok && mn == 1 && mx == 1, uk+":original-once", orig.Pos(), "exactly one dynamic call (the original handler) on every path", fmt.Sprintf("the decorated handler makes between %d and %d dynamic calls, want exactly the one call of the original handler", mn, mx))
-				// callee is the captured original handler (a cell stored from md.Handler of the input)
-				okCallee := false
-				for _, o := range calleeOrigins(orig) {
-					if _, f, ok := core.FieldOf(o); ok && f == "Handler" {
-						okCallee = true
+				transportPar := unaryWrap.Params[3]
+				okCallee, okArgs := true, true
+				type alt struct {
+					v  ssa.Value
+					at ssa.Instruction // where the choice of this value is decided
+					// for a φ edge the edge's own condition counts (succ); for a plain argument the call site
+					succ *ssa.BasicBlock
+				}
+				var alts []alt
+				for _, oc := range origs {
+					// callee is the captured original handler (a cell stored from md.Handler of the input)
+					isOrigCallee := false
+					for _, o := range calleeOrigins(oc) {
+						if _, f, ok := core.FieldOf(o); ok && f == "Handler" {
+							isOrigCallee = true
+						}
+					}
+					if !isOrigCallee {
+						okCallee = false
+					}
+					for i := 0; i < 3; i++ {
+						if !isParamVal(oc.Call.Args[i], unaryWrap.Params[i]) {
+							okArgs = false
+						}
+					}
+					if !returnsCall(unaryWrap, oc) {
+						okArgs = false
+					}
+					a4 := oc.Call.Args[3]
+					if phi, isPhi := a4.(*ssa.Phi); isPhi {
+						for i, e := range phi.Edges {
+							pred := phi.Block().Preds[i]
+							alts = append(alts, alt{e, pred.Instrs[len(pred.Instrs)-1], phi.Block()})
+						}
+					} else {
+						alts = append(alts, alt{a4, oc, nil})
 					}
 				}
 				c.Check(okCallee, uk+":callee-is-original", orig.Pos(), "the callee is the Handler field of the input's method entry captured per iteration", "the function called is not the original handler of this entry")
-				// args 0..2 positional
-				okArgs := true
-				for i := 0; i < 3; i++ {
-					if !isParamVal(orig.Call.Args[i], unaryWrap.Params[i]) {
-						okArgs = false
-					}
-				}
-				c.Check(okArgs && returnsCall(unaryWrap, orig), uk+":pass-through", orig.Pos(), "srv, ctx, dec forwarded positionally; results returned unchanged", "srv/ctx/dec are not forwarded positionally or the results are altered")
-				// 4th arg
-				a4 := orig.Call.Args[3]
-				transportPar := unaryWrap.Params[3]
-				var direct, combined ssa.Value
-				var combFn *ssa.Function
-				phi, isPhi := a4.(*ssa.Phi)
-				if isPhi {
-					for _, e := range phi.Edges {
-						if mc := closureOfValue(e); mc != nil {
-							combined, combFn = e, mc
-						} else {
-							direct = e
-						}
-					}
-				}
+				c.Check(okArgs, uk+":pass-through", orig.Pos(), "srv, ctx, dec forwarded positionally; results returned unchanged", "srv/ctx/dec are not forwarded positionally or the results are altered")
 				isDecorating := func(v ssa.Value) bool {
 					return core.AllOrigins(v, func(o ssa.Value) bool {
 						r := core.ResolveFree(o)
@@ -201,21 +211,37 @@ func c16(c *core.Ctx) {
 						return r == ssa.Value(dec.Params[1])
 					})
 				}
-				if !isPhi || direct == nil || combined == nil {
+				guardedAt := func(a alt, op token.Token) bool {
+					pred := func(f core.Fact) bool {
+						return f.Op == op && core.IsNilConst(f.Y) && isParamVal(f.X, transportPar)
+					}
+					return core.LeafGuarded(core.ErrLeaf{V: a.v, At: a.at, Succ: a.succ}, pred)
+				}
+				var direct, combined ssa.Value
+				var combFn *ssa.Function
+				okDirect, okCombinedGuard := true, true
+				for _, a := range alts {
+					if mc := closureOfValue(a.v); mc != nil {
+						combined, combFn = a.v, mc
+						if !guardedAt(a, token.NEQ) {
+							okCombinedGuard = false
+						}
+					} else {
+						direct = a.v
+						if !isDecorating(a.v) {
+							okDirect = false
+						}
+						// a plain (non-φ) argument must sit on the transport == nil edge; for a φ the other edge is the complement
+						if a.succ == nil && !guardedAt(a, token.EQL) {
+							okDirect = false
+						}
+					}
+				}
+				if direct == nil || combined == nil {
 					c.Fail(uk+":interceptor-arg", orig.Pos(), "the interceptor handed to the original handler is not 'decorating, or combined when the transport supplies one'")
 				} else {
-					c.Check(isDecorating(direct), uk+":nil-transport→decorating", orig.Pos(), "no transport interceptor: the original handler is given the decorating interceptor", "without a transport interceptor the original handler is not given the decorating interceptor")
-					// the combined edge is taken on transport != nil
-					for i, e := range phi.Edges {
-						if e != combined {
-							continue
-						}
-						pred := phi.Block().Preds[i]
-						g := core.GuardedBy(pred.Instrs[len(pred.Instrs)-1], func(f core.Fact) bool {
-							return f.Op == token.NEQ && core.IsNilConst(f.Y) && isParamVal(f.X, transportPar)
-						})
-						c.Check(g, uk+":combined-iff-transport", orig.Pos(), "combined interceptor used exactly when the transport supplied one", "the combined interceptor is not tied to 'transport interceptor != nil'")
-					}
+					c.Check(okDirect, uk+":nil-transport→decorating", orig.Pos(), "no transport interceptor: the original handler is given the decorating interceptor", "without a transport interceptor the original handler is not given the decorating interceptor")
+					c.Check(okCombinedGuard, uk+":combined-iff-transport", orig.Pos(), "combined interceptor used exactly when the transport supplied one", "the combined interceptor is not tied to 'transport interceptor != nil'")
 					// combined: calls transport interceptor once with (ctx, req, info, h)
 					ck := core.FuncName(combFn)
 					var tcall *ssa.Call
